@@ -12,7 +12,8 @@ ASSUMPTIONS = sched.ASSUMPTIONS + ['empty initial environment',
                                    "published = for a dependency whose do() returned (update, DONE): the update's result is readable; "
                                    'malformed returns are judged by C02']
 OUTSIDE = sched.OUTSIDE
-BOUNDS = {'quick': {'tasks': 2, 'graphs': 'all 3 labelled graphs on 2 tasks (none/hard/soft)', 'workers': [1, 2],
+BOUNDS = {'quick': {'nested graphs': 'Scheduler.__init__ on every labelled (unrelated / hard / soft) graph over 3 plain tasks and one nested graph with 0 or 1 task at any place of the creation order (5832 graphs): reduction to plain-task graphs',
+                    'tasks': 2, 'graphs': 'all 3 labelled graphs on 2 tasks (none/hard/soft)', 'workers': [1, 2],
                     'plus': '3-task chain and hard+soft fan-in with 1 worker; two publishers under a shared environment key (W=2)', 'outcomes': KINDS,
                     'depth': 'every run, first K = 22+11N+6W steps (completeness of K is established in the thorough tier for W=1)'},
           'thorough': {'tasks': '<= 3', 'graphs': 'all 27 labelled hard/soft/none graphs on 3 tasks (W=1), 2-task graphs W<=2; '
@@ -92,9 +93,14 @@ def jobs(tier):
     # (two independent publishers, two workers; the 3-task version with a reader needs > 15 min per query)
     c = Config(2, [], [], 2, shared=True)
     out.append((cfg_name(c) + '-shared', _job, dict(n=2, hard=[], soft=[], w=2, tier=tier, shared=True)))
+    # graphs with a nested (possibly empty) dependency graph as a node: what Scheduler.__init__ hands to the back end (symrun)
+    out.append(('handed-graphs', sched._job_handed_graphs, dict(timeout_ms=20000)))
     return out
 
 
 def replay(rp):
     import sys
+    if rp['job'] == 'handed-graphs':
+        from engine.runner import replay_sym
+        return replay_sym(sched.handed_graphs_harness, rp['inputs'])
     return sched.generic_replay(sys.modules[__name__], rp)
